@@ -122,7 +122,7 @@ def base_net3():
     mv2, lv2 = pp.create_bus(net, 20.0), pp.create_bus(net, 10.0)
     pp.create_transformer3w_from_parameters(          # O3 (trafo3w 1): tap at the mv terminal
         net, b1, mv2, lv2, vn_hv_kv=110., vn_mv_kv=21., vn_lv_kv=10.5, sn_hv_mva=31.5, sn_mv_mva=20., sn_lv_mva=12.,
-        vk_hv_percent=12.0, vk_mv_percent=8.0, vk_lv_percent=6.5, vkr_hv_percent=0.6, vkr_mv_percent=0.5,
+        vk_hv_percent=12.0, vk_mv_percent=8.6, vk_lv_percent=7.6, vkr_hv_percent=0.6, vkr_mv_percent=0.5,
         vkr_lv_percent=0.55, pfe_kw=15., i0_percent=0.1, shift_mv_degree=0., shift_lv_degree=0., tap_side="mv",
         tap_step_percent=1.25, tap_step_degree=0., tap_at_star_point=False, tap_changer_type="Ratio", **tap)
     pp.create_load(net, mv2, 8., 2.)
@@ -272,18 +272,19 @@ def _model_runs(tier):
     from ..tla import SPEC_DIR
     wd = tempfile.mkdtemp(prefix="ppverif_c31_")
     try:
+        jobs = []
         for name in ("TapTable.cfg", "TapTable3W.cfg"):
             cfg = open(os.path.join(SPEC_DIR, name)).read()
             if tier == "thorough":
                 cfg = cfg.replace("Positions = {1, 2, 3}", "Positions = {0, 1, 2, 3, 4}")
-            open(os.path.join(wd, name), "w").write(cfg)
+            sub = os.path.join(wd, name[:-4])
+            os.makedirs(sub)
+            open(os.path.join(sub, name), "w").write(cfg)      # run_tlc does not overwrite files already in the workdir
+            jobs.append((name, sub))
         w = max(2, min(8, PROCS // 2))
         with ThreadPoolExecutor(2) as ex:
-            f2 = ex.submit(run_tlc, "TapTable", "TapTable.cfg", workdir=os.path.join(wd, "w2"), dump=True, workers=w,
-                           extra_files=[os.path.join(wd, "TapTable.cfg")])
-            f3 = ex.submit(run_tlc, "TapTable", "TapTable3W.cfg", workdir=os.path.join(wd, "w3"), dump=True, workers=w,
-                           extra_files=[os.path.join(wd, "TapTable3W.cfg")])
-            return f2.result(), f3.result()
+            fs = [ex.submit(run_tlc, "TapTable", name, workdir=sub, dump=True, workers=w) for name, sub in jobs]
+            return fs[0].result(), fs[1].result()
     finally:
         shutil.rmtree(wd, ignore_errors=True)
 
